@@ -263,8 +263,6 @@ package ext
 //@   ghostset-at-entry hdrComplete = false
 //@   ghostset after HeadersComplete#0: hdrComplete = result
 //@   assert @C02 before Next: hdrComplete
-//@   replay-go buf := []byte("A: b\r\n c\r\nB: d\r\n\r\n"); var t1 protocol.Trailer; t1.SetTrailers([]byte("A")); if _, err := parseTrailer(&t1, append([]byte(nil), buf...)); err != nil { fmt.Println("VCGO-NOTE whole block:", err); return }; want := string(t1.Peek("A")); cut := len("A: b\r\n c\r\n"); var t2 protocol.Trailer; t2.SetTrailers([]byte("A")); parseTrailer(&t2, buf[:cut]); parseTrailer(&t2, buf); if got := string(t2.Peek("A")); got != want { fmt.Printf("VCGO-VIOLATED trailer A is %q when the block arrives whole and %q when the first attempt saw only the folded line\n", want, got) }
-//@   replay-import github.com/cloudwego/hertz/pkg/protocol
 //@   requires len(buf) > 0 && t != nil
 //@   modifies t._all, alltype(protocol.argsKV), mem, parseArr, hdrComplete
 //@   ghostset-at-entry parseArr = arr(buf)
